@@ -146,10 +146,15 @@ def File.mapTokens (g : Token → Token) (f : File) : File :=
 
 /-! ### the three rules -/
 
+/-- `content.strip_suffix('\r').unwrap_or(content)` in `FilterCommentProcessor::ignore_trivia`: the text
+of a line comment of a CRLF file carries the CR; patterns are matched without it -/
+def stripCr (content : Bytes) : Bytes :=
+  if content.getLast? = some 13 then content.dropLast else content
+
 /-- `RemoveComments::flawless_process`. `isMatch pattern content` stands for `Regex::is_match`. -/
 def removeComments {Pat : Type} (isMatch : Pat → Bytes → Bool) (except : List Pat) (f : File) : File :=
   if except.isEmpty then f.mapTokens Token.clearComments
-  else f.mapTokens (Token.filterComments fun x => except.any fun p => isMatch p x.content)
+  else f.mapTokens (Token.filterComments fun x => except.any fun p => isMatch p (stripCr x.content))
 
 /-- `RemoveSpaces::flawless_process` -/
 def removeSpaces (f : File) : File := f.mapTokens Token.clearWhitespaces
@@ -245,7 +250,7 @@ def Node.filterComments (keep : Trivia → Bool) : Node → Node :=
 /-- `RemoveComments::flawless_process` on the tree (the visitor reaches every node: assumption A1) -/
 def removeCommentsTree {Pat : Type} (isMatch : Pat → Bytes → Bool) (except : List Pat) (n : Node) : Node :=
   if except.isEmpty then n.clearComments
-  else n.filterComments fun x => except.any fun p => isMatch p x.content
+  else n.filterComments fun x => except.any fun p => isMatch p (stripCr x.content)
 
 /-- `RemoveSpaces::flawless_process` on the tree -/
 def removeSpacesTree (n : Node) : Node := n.clearWhitespaces
